@@ -1,16 +1,21 @@
 ------------------------- MODULE LapackContractGen -------------------------
 (* R2 generator of property C07 (LAPACK part): TLC draws argument tuples of   *)
-(* every routine of LapackContract.tla from the property's grid               *)
+(* every routine of LapackContract.tla, evaluates the decision table and      *)
+(* prints one self-contained JSON object per tuple.                           *)
+(* Mode "sample": the property's grid                                         *)
 (*    dimensions {-1,0,1,2,3,5}, ld in {min-1,min,min+2}, incv in -2..2,      *)
 (*    lwork in {-1, min-1, min, opt}, slice lengths {need-1,need,need+3},     *)
 (*    every flag legal or illegal                                             *)
-(* evaluates the decision table and prints one self-contained JSON object per *)
-(* tuple.  Stratified sample: 2/8 all clauses satisfied, 5/8 exactly one      *)
-(* argument drawn from its illegal values (cycling through the argument      *)
-(* list), 1/8 every argument drawn from its whole grid.                       *)
+(* stratified: 2/8 all clauses satisfied, 5/8 exactly one argument drawn from *)
+(* its illegal values (cycling through the argument list), 1/8 anything.      *)
+(* Mode "boundary": for every legal flag combination, every legal shape with  *)
+(* dimensions in BDims (m<n, m=n, m>n, zero), every stride extra in BLd and   *)
+(* lwork minimal and queried: all slices exactly at their minimum length      *)
+(* (must be accepted), and each slice in turn one element short (must be      *)
+(* rejected unless the problem is zero-sized).                                *)
 EXTENDS LapackContract, Json
 
-CONSTANTS Routines, Seed, Target, Emit
+CONSTANTS Routines, Seed, Target, Emit, Mode, BDims, BLd
 
 VARIABLE g
 
@@ -20,19 +25,21 @@ IncAll == -2 .. 2        IncOK == IncAll \ {0}
 LenAll == {-1, 0, 3}     LenOK == {0, 3}
 LwkAll == {"q", "lo", "min", "opt"}   LwkOK == {"q", "min", "opt"}
 
-Slots == <<"f1", "f2", "f3", "f4", "d1", "d2", "d3", "e1", "e2", "e3", "e4", "inc", "lwk",
-           "l1", "l2", "l3", "l4", "v1", "v2", "i1", "wk">>
+\* argument slots: 4 flags, 4 dimensions, 4 strides, increment, lwork kind, 4 matrix lengths, 4 vector lengths,
+\* 1 int vector length, work length
+Slots == <<"f1", "f2", "f3", "f4", "d1", "d2", "d3", "d4", "e1", "e2", "e3", "e4", "inc", "lwk",
+           "l1", "l2", "l3", "l4", "v1", "v2", "v3", "v4", "i1", "wk">>
 SlotIdx(s) == CHOOSE i \in 1 .. Len(Slots) : Slots[i] = s
-Num(s) == CASE s \in {"f1", "d1", "e1", "l1", "v1", "i1"} -> 1 [] s \in {"f2", "d2", "e2", "l2", "v2"} -> 2
-            [] s \in {"f3", "d3", "e3", "l3"} -> 3 [] s \in {"f4", "e4", "l4"} -> 4 [] OTHER -> 0
 Has(r, s) ==
-    CASE s \in {"f1", "f2", "f3", "f4"} -> Num(s) <= Len(FlagKinds(r))
-      [] s \in {"d1", "d2", "d3"} -> Num(s) <= Len(DimNames(r))
-      [] s \in {"e1", "e2", "e3", "e4", "l1", "l2", "l3", "l4"} -> Num(s) <= Len(Mats(r))
-      [] s \in {"v1", "v2"} -> Num(s) <= Len(Vecs(r))
-      [] s = "i1" -> Len(IVecs(r)) = 1
+    LET i == SlotIdx(s) IN
+    CASE i \in 1 .. 4 -> i <= Len(FlagKinds(r)) /\ AllCodes(FlagKinds(r)[i]) # LegalCodes(FlagKinds(r)[i])
+      [] i \in 5 .. 8 -> i - 4 <= Len(DimNames(r))
+      [] i \in 9 .. 12 -> i - 8 <= Len(Mats(r))
       [] s = "inc" -> HasInc(r)
       [] s \in {"lwk", "wk"} -> HasLwork(r)
+      [] i \in 15 .. 18 -> i - 14 <= Len(Mats(r))
+      [] i \in 19 .. 22 -> i - 18 <= Len(Vecs(r))
+      [] s = "i1" -> Len(IVecs(r)) = 1
 
 HP == 46337
 Scr(hh, j) == (hh * hh + 7 * hh + j + 1) % HP
@@ -41,15 +48,31 @@ HS(f0, i, j) == IF j = 0 THEN ((i * 7919) + ((Seed % 1000) * 4729) + f0 * 131) %
 NthInt(S, kk) == CHOOSE v \in S : Cardinality({w \in S : w < v}) = kk % Cardinality(S)
 RoutineSeq == <<"Dgetrf", "Dgetf2", "Dgetrs", "Dgesv", "Dgetri", "Dpotrf", "Dpotf2", "Dpotrs", "Dpotri",
                 "Dgeqrf", "Dgeqr2", "Dgelqf", "Dgelq2", "Dorgqr", "Dorg2r", "Dorglq", "Dorgl2",
-                "Dormqr", "Dorm2r", "Dormlq", "Dorml2", "Dtrtri", "Dtrti2", "Dtrtrs", "Dlarft", "Dlarfb", "Dlarf">>
+                "Dormqr", "Dorm2r", "Dormlq", "Dorml2", "Dtrtri", "Dtrti2", "Dtrtrs", "Dlarft", "Dlarfb", "Dlarf",
+                "Dgels", "Dgesvd", "Dsyev", "Dsytrd", "Dorgtr", "Dgeev", "Dtrcon", "Dgecon", "Dpocon", "Dlansy",
+                "Dgehrd", "Dorghr", "Dgeqp3", "Dgebrd", "Dlacpy", "Dlaset", "Dlange", "Dlantr",
+                "Dpbtrs", "Dtbtrs", "Dpbtrf", "Dgtsv", "Dptsv", "Dorgbr", "Dormbr", "Dormhr">>
 RIdx(r) == CHOOSE kk \in 1 .. Len(RoutineSeq) : RoutineSeq[kk] = r
 LwkSeq == <<"q", "min", "opt", "lo">>
 NthLwk(S, kk) == LET idx == {i \in 1 .. 4 : LwkSeq[i] \in S}
                  IN LwkSeq[NthInt(idx, kk)]
 
-\* bad-or-all selection: an empty bad set falls back to the legal values
+\* bad-or-all selection: an empty set falls back
 Pick(ok, all, which) == IF which = "ok" THEN (IF ok = {} THEN all ELSE ok) ELSE IF which = "all" THEN all
                         ELSE (IF all \ ok = {} THEN ok ELSE all \ ok)
+LegalOf(kind) == IF kind = "trans2" THEN {0, 1} ELSE LegalCodes(kind)
+
+P0(f) == [f |-> f, d |-> <<0, 0, 0, 0>>, ld |-> [o \in {"a"} |-> 1], inc |-> 1, lwork |-> 0, lwk |-> "none", len |-> [o \in {"a"} |-> 0]]
+PosIn(sq, o) == CHOOSE j \in 1 .. Len(sq) : sq[j] = o
+Operands(r) == SeqToSet(Mats(r)) \cup SeqToSet(Vecs(r)) \cup SeqToSet(IVecs(r)) \cup (IF HasLwork(r) THEN {"work"} ELSE {})
+LworkOf(r, p, lwk) == CASE lwk = "q" -> -1 [] lwk = "lo" -> MinLwork(r, p) - 1 [] lwk = "min" -> MinLwork(r, p) [] OTHER -> 0
+\* the minimum length of an operand: the storage extent of a matrix, the documented length of a vector,
+\* max(1, lwork) for the workspace (for lwork = opt the harness adds the value the query returns)
+MinLen(r, p, o, lwk, lwork) ==
+    IF o \in SeqToSet(Mats(r)) THEN Need(MatDesc(r, p, o))
+    ELSE IF o \in SeqToSet(Vecs(r)) THEN VecMin(r, p, o)
+    ELSE IF o \in SeqToSet(IVecs(r)) THEN IVecMin(r, p, o)
+    ELSE (IF lwk = "opt" THEN 0 ELSE Max(1, lwork))
 
 FaultSlots(r) == SelectSeq(Slots, LAMBDA s : Has(r, s))
 Sample(r, i) ==
@@ -62,38 +85,62 @@ Sample(r, i) ==
         nd == Len(DimNames(r))
         flag(j) == IF j > nf THEN 0
                    ELSE LET kind == FlagKinds(r)[j]
-                            s == Slots[j]
-                        IN NthInt(Pick(IF kind = "trans2" THEN {0, 1} ELSE LegalCodes(kind), AllCodes(kind), which(s)), H(j))
+                        IN NthInt(Pick(LegalOf(kind), AllCodes(kind), which(Slots[j])), H(j))
         f == <<flag(1), flag(2), flag(3), flag(4)>>
-        p0 == [f |-> f, d |-> <<0, 0, 0>>, ld |-> [o \in {"a"} |-> 1], inc |-> 1, lwork |-> 0, lwk |-> "none", len |-> [o \in {"a"} |-> 0]]
+        p0 == P0(f)
         legal(pp, j) == {v \in DimAll : v >= DimRange(r, pp, j)[1] /\ v <= DimRange(r, pp, j)[2]}
         dim(pp, j) == IF j > nd THEN 0 ELSE NthInt(Pick(legal(pp, j), DimAll, which(Slots[4 + j])), H(4 + j))
         d1 == dim(p0, 1)
-        p1 == [p0 EXCEPT !.d = <<d1, 0, 0>>]
-        d2 == dim(p1, 2)
-        p2 == [p0 EXCEPT !.d = <<d1, d2, 0>>]
-        d3 == dim(p2, 3)
-        p3 == [p0 EXCEPT !.d = <<d1, d2, d3>>]
+        d2 == dim([p0 EXCEPT !.d = <<d1, 0, 0, 0>>], 2)
+        d3 == dim([p0 EXCEPT !.d = <<d1, d2, 0, 0>>], 3)
+        d4 == dim([p0 EXCEPT !.d = <<d1, d2, d3, 0>>], 4)
+        p3 == [p0 EXCEPT !.d = <<d1, d2, d3, d4>>]
         ms == Mats(r)
         vs == Vecs(r)
         is == IVecs(r)
-        ldx(j) == NthInt(Pick(LdOK, LdAll, which(Slots[7 + j])), H(7 + j))
-        ld == [o \in SeqToSet(ms) |-> Max(1, MatDims(r, p3, o)[2]) + ldx(CHOOSE j \in 1 .. Len(ms) : ms[j] = o)]
-        inc == IF HasInc(r) THEN NthInt(Pick(IncOK, IncAll, which("inc")), H(12)) ELSE 1
-        lwk == IF HasLwork(r) THEN NthLwk(Pick(LwkOK, LwkAll, which("lwk")), H(13)) ELSE "none"
+        ldx(j) == NthInt(Pick(LdOK, LdAll, which(Slots[8 + j])), H(8 + j))
+        ld == [o \in SeqToSet(ms) |-> Max(1, MatDims(r, p3, o)[2]) + ldx(PosIn(ms, o))]
+        inc == IF HasInc(r) THEN NthInt(Pick(IncOK, IncAll, which("inc")), H(13)) ELSE 1
+        lwk == IF HasLwork(r) THEN NthLwk(Pick(LwkOK, LwkAll, which("lwk")), H(14)) ELSE "none"
         p4 == [p3 EXCEPT !.ld = ld, !.inc = inc]
-        lwork == CASE lwk = "q" -> -1 [] lwk = "lo" -> MinLwork(r, p4) - 1 [] lwk = "min" -> MinLwork(r, p4) [] OTHER -> 0
-        wd == NthInt(Pick(LenOK, LenAll, which("wk")), H(21))
-        dl(j) == NthInt(Pick(LenOK, LenAll, which(Slots[13 + j])), H(13 + j))
-        dv(j) == NthInt(Pick(IF vs[j] = "tau" THEN {0} ELSE LenOK, LenAll, which(Slots[17 + j])), H(17 + j))
-        di == NthInt(Pick({0}, LenAll, which("i1")), H(20))
-        ops == SeqToSet(ms) \cup SeqToSet(vs) \cup SeqToSet(is) \cup (IF HasLwork(r) THEN {"work"} ELSE {})
-        len == [o \in ops |->
-                  IF o \in SeqToSet(ms) THEN Max(0, Need(MatDesc(r, p4, o)) + dl(CHOOSE j \in 1 .. Len(ms) : ms[j] = o))
-                  ELSE IF o \in SeqToSet(vs) THEN Max(0, VecMin(r, p4, o) + dv(CHOOSE j \in 1 .. Len(vs) : vs[j] = o))
-                  ELSE IF o \in SeqToSet(is) THEN Max(0, IVecMin(r, p4, o) + di)
-                  ELSE (IF lwk = "opt" THEN wd ELSE Max(0, Max(1, lwork) + wd))]
+        lwork == LworkOf(r, p4, lwk)
+        wd == NthInt(Pick(LenOK, LenAll, which("wk")), H(24))
+        dl(j) == NthInt(Pick(LenOK, LenAll, which(Slots[14 + j])), H(14 + j))
+        dv(j) == NthInt(Pick(IF vs[j] \in ExactNames THEN {0} ELSE LenOK, LenAll, which(Slots[18 + j])), H(18 + j))
+        di == NthInt(Pick({0}, LenAll, which("i1")), H(23))
+        delta(o) == IF o \in SeqToSet(ms) THEN dl(PosIn(ms, o)) ELSE IF o \in SeqToSet(vs) THEN dv(PosIn(vs, o))
+                    ELSE IF o \in SeqToSet(is) THEN di ELSE wd
+        len == [o \in Operands(r) |->
+                  IF o = "work" /\ HasLwork(r) /\ lwk = "opt" THEN wd
+                  ELSE Max(0, MinLen(r, p4, o, lwk, lwork) + delta(o))]
     IN [r |-> r, p |-> [p4 EXCEPT !.lwork = lwork, !.lwk = lwk, !.len = len]]
+
+(******************************* boundary grid *******************************)
+RECURSIVE FlagCombos(_, _)
+FlagCombos(r, j) ==          \* all legal flag sequences (positions j .. 4)
+    IF j > 4 THEN {<<>>}
+    ELSE LET S == IF j > Len(FlagKinds(r)) THEN {0} ELSE LegalOf(FlagKinds(r)[j])
+         IN {<<v>> \o t : v \in S, t \in FlagCombos(r, j + 1)}
+DimCombos(r, f) ==
+    LET nd == Len(DimNames(r))
+        D(j) == IF j <= nd THEN BDims \cup (IF DimNames(r)[j] = "ihi" THEN {-1} ELSE {}) ELSE {0}
+    IN {d \in {<<a, b, c, e>> : a \in D(1), b \in D(2), c \in D(3), e \in D(4)} :
+          DimsOK(r, [P0(f) EXCEPT !.d = d]) /\ ~Unspec(r, [P0(f) EXCEPT !.d = d])}
+BPoint(r, f, d, e, lwk, short) ==
+    LET p3 == [P0(f) EXCEPT !.d = d]
+        ld == [o \in SeqToSet(Mats(r)) |-> Max(1, MatDims(r, p3, o)[2]) + e]
+        p4 == [p3 EXCEPT !.ld = ld]
+        lwork == LworkOf(r, p4, lwk)
+        len == [o \in Operands(r) |->
+                  IF o = "work" /\ HasLwork(r) /\ lwk = "opt" THEN (IF short = o THEN -1 ELSE 0)
+                  ELSE Max(0, MinLen(r, p4, o, lwk, lwork) - (IF short = o THEN 1 ELSE 0))]
+    IN [r |-> r, p |-> [p4 EXCEPT !.lwork = lwork, !.lwk = lwk, !.len = len]]
+Boundary(r, ch, nch) ==
+    UNION {{BPoint(r, f, d, e, lwk, short) :
+              d \in {dd \in DimCombos(r, f) : (dd[1] + 2 * dd[2] + 3 * dd[3] + dd[4] + 7) % nch = ch},
+              e \in BLd, lwk \in (IF HasLwork(r) THEN {"min", "opt"} ELSE {"none"}),
+              short \in Operands(r) \cup {"none"}}
+           : f \in FlagCombos(r, 1)}
 
 Case(c) ==
     LET r == c.r  p == c.p
@@ -104,18 +151,23 @@ Case(c) ==
         work |-> IF HasLwork(r) THEN p.len["work"] ELSE 0,
         exp |-> Expected(r, p), nowrite |-> IF NoWriteOK(r, p) THEN 1 ELSE 0,
         hard |-> Hard(r, p), soft |-> Soft(r, p)]
-Meta(r) == [meta |-> "lapack", r |-> r, clauses |-> ClausesOf(r)]
+Meta(r) == [meta |-> "lapack", r |-> r, clauses |-> IF Mode = "sample" THEN ClausesOf(r) ELSE {}]
 
 NChunks == 4
 Init == g \in {[r |-> "start", fam |-> f, ch |-> ch] : f \in Routines, ch \in 0 .. NChunks - 1}
-Next == g.r = "start" /\ g' \in {Sample(g.fam, i) : i \in {ii \in 1 .. Target : ii % NChunks = g.ch}}
+Next == g.r = "start" /\
+        g' \in (IF Mode = "sample" THEN {Sample(g.fam, i) : i \in {ii \in 1 .. Target : ii % NChunks = g.ch}}
+                ELSE Boundary(g.fam, g.ch, NChunks))
 Spec == Init /\ [][Next]_g
 
 TypeOK == Routines \subseteq LapackRoutines
+\* in the boundary grid nothing but a single short slice can be wrong
+BoundaryOK(r, p) == Mode = "boundary" => Cardinality(Hard(r, p)) <= 1
 CaseOK ==
     IF g.r = "start"
     THEN (Emit /\ g.ch = 0) => PrintT(ToJson(Meta(g.fam)))
     ELSE /\ NeedThm(g.r, g.p)
+         /\ BoundaryOK(g.r, g.p)
          /\ Expected(g.r, g.p) \in {"OK", "PANIC", "EITHER", "UNSPEC"}
          /\ Emit => PrintT(ToJson(Case(g)))
 =============================================================================
